@@ -71,6 +71,32 @@ def eraseDef : ExecDef → ExecDef
 /-- a document with all positions erased -/
 def erasePos (defs : List ExecDef) : List ExecDef := defs.map eraseDef
 
+/-! ### the documents the property quantifies over -/
+
+mutual
+/-- no selection set is empty (the grammar requires at least one selection between braces) -/
+def selOk : Selection → Bool
+  | .field _ _ _ _ _ (some ss) => !ss.isEmpty && selsOk ss
+  | .field _ _ _ _ _ none => true
+  | .spread _ _ _ _ => true
+  | .inline _ _ ss _ => !ss.isEmpty && selsOk ss
+def selsOk : List Selection → Bool
+  | [] => true
+  | s :: r => selOk s && selsOk r
+end
+
+/-- a definition of an import-resolved, parsed document: an operation or a fragment (no `#import` line is left)
+    whose selection sets are all non-empty -/
+def defOk : ExecDef → Bool
+  | .op o => !o.sel.isEmpty && selsOk o.sel
+  | .frag f => !f.sel.isEmpty && selsOk f.sel
+  | .imp _ => false
+
+/-- an import-resolved document as the parser can produce it -/
+def Resolved (defs : List ExecDef) : Prop := ∀ d ∈ defs, defOk d = true
+
+instance (defs : List ExecDef) : Decidable (Resolved defs) := by unfold Resolved; infer_instance
+
 /-! ### the reader -/
 
 /-- what a JSON object can be read as -/
